@@ -58,5 +58,7 @@ def parse_simple_regexp(text):
     stream = CommonTokenStream(lexer)
     parser = regexp_simpleParser(stream)
     tree = parser.expression()
+    if parser.getNumberOfSyntaxErrors() > 0 or stream.LA(1) != Token.EOF:
+        raise RuntimeError('syntax error in regular expression {}'.format(text))
     visitor = regexp_simpleVisitor()
     return visitor.visit(tree)
